@@ -70,6 +70,9 @@ class BUG(TTNTimeEvolution):
         """
         recursive_truncation(self.state,
                              self.config)
+        # Truncating a bond further down contracts a projector into the
+        # tensors above it, so the canonical form has to be re-established.
+        self.state.canonical_form(self.state.root_id)
 
     def recursive_update(self):
         """
